@@ -150,6 +150,18 @@ main :: () -> i32 {
     %(c)d
 }
 """),
+    # constants whose value has to be *converted* to the type of the place that reads them:
+    # a plain value for an optional, an untyped array literal read at a wider element type
+    ("optional_const", """
+limit : ?i64 : %(a)d;
+has_limit :: comptime { l := limit; if l == nil { 0 } else { 1 } };
+small : ?u8 : comptime { %(c)d };
+main :: () -> i32 { copy :: comptime { limit }; has_limit }
+"""),
+    ("weak_array_wide", """
+primes :: .[2, 3, 5, 7, %(a)d, 13, 17, %(b)d];
+main :: () -> i32 { table : [8]i64 : comptime { primes }; i32.(table[7]) }
+"""),
     ("tuple_like", """
 Pair :: struct { k: u8, v: [3]u16, last: u8 };
 mk :: (n: u16) -> Pair { Pair.{ k = %(c)d, v = u16.[n, n + 1, n + 2], last = 7 } }
